@@ -210,6 +210,8 @@ class C02(Check):
                                  label, 'unlabelled'))
         mode = case['mode']
         self.bump('families', mode)
+        for r in case['reasons']:
+            self.bump('probes', 'R:' + r)
         extra = getattr(self, '_run_' + mode)(case, data, info, label, log)
         n = len(data)
         tclass = 'full'
@@ -632,6 +634,15 @@ class C02(Check):
                 c['sched']['fam'] = 'min'
                 c['sched'].pop('q', None)
             yield c
+
+    def extra_coverage(self, agg):
+        rs = {k[2:]: v for k, v in agg['probes'].items()
+              if k.startswith('R:')}
+        bits = sorted(int(k.split('_')[-1]) for k in rs
+                      if k.startswith('unknown_bit_'))
+        return {'unsafe_trait_images': dict(sorted(rs.items())),
+                'single_unknown_feature_bits_covered': len(bits),
+                'single_unknown_feature_bits_possible': 60}
 
     def sample(self, case):
         c = {k: v for k, v in case.items() if k != 'sched'}
